@@ -15,6 +15,18 @@ def all_strings(alpha, n):
 def local_class(n, alpha=LOCAL_ALPHA):
     return ['L %s -' % hx(s) for s in all_strings(alpha, n)]
 
+LOCAL_TOKENS = [b'a', b'.', b'"', b'\\', b' ', b'\t', b'\r\n ', b'\r\n\t', b'\r\n', b'\n ', b'\r', b'\n', b'\x80', b'\xd0\xb0', b'\\"', b'(', b'\x01']
+
+def local_tokens(n, tokens=LOCAL_TOKENS):
+    """all sequences of at most n *tokens* — the structural characters plus multi-byte units (a complete folding CRLF SP / CRLF HT,
+    its fragments CRLF, LF SP, CR, LF, an escaped quote, a non-ASCII character, a lone high byte) — bare and wrapped in a pair of
+    quotes: what a scanner does after it has consumed a multi-byte unit is out of reach of short strings over single characters."""
+    out = []
+    for s in all_strings(tokens, n):
+        out.append('L %s -' % hx(s))
+        out.append('L %s -' % hx(b'"' + s + b'"'))
+    return out
+
 LOCAL_PRE = [b'', b'a', b'a.', b'"a"', b'"a".', b'"', b'"a', b'"\\', b'"\r', b'"\r\n', b'" ', b'"a ', b'"\\ ',
              b'\xd0\xb0', b'\xd0\xb0.', b'"\xd0\xb0', b'"\\a']
 LOCAL_POST = [b'', b'b', b'.b', b'"', b'".b', b' "', b'\n "', b'\n\tx"', b'\\"', b'.', b'..b', b'"b', b'\xd0\xb1', b'\xd0\xb1"']
@@ -330,13 +342,14 @@ def last_two_label_lengths():
         for l2 in range(1, 64):
             d = b'a' * l1 + b'.' + b'b' * l2
             out += [d, d + b'.', b'x.' + d]
-    for l2 in range(1, 64):
-        out += [b'example.' + b'c' * l2, b'samples.' + b'c' * l2, b'EXAMPLE.' + b'C' * l2 + b'.']
+    # the public is_special_domain takes any string: last labels longer than a host name admits, behind the words the code compares with
+    for l2 in list(range(1, 72)) + [126, 127, 128, 129, 254, 255, 256, 257, 300]:
+        out += [b'example.' + b'c' * l2, b'samples.' + b'c' * l2, b'EXAMPLE.' + b'C' * l2 + b'.', b'x.Example.' + b'c' * l2, b'example.' + b'c' * l2 + b'.']
+        if l2 > 63: out += [b'a' * 7 + b'.' + b'b' * l2, b'test.' + b'c' * l2, b'c' * l2 + b'.example.com', b'c' * l2 + b'.test']
     return out
 
-def reserved_domains(full=False):
-    """0-3 labels of every length 1-63 (length 7 and the word 'example' in particular) before each reserved
-    suffix and before its one-edit neighbours, in several case patterns."""
+def reserved_suffixes():
+    """each reserved name, its case variants, one-edit neighbours, stretched / cut / hyphen-glued forms (no further labels in front)"""
     sufs = []
     for r in RESERVED:
         sufs.extend(case_variants(r))
@@ -358,7 +371,12 @@ def reserved_domains(full=False):
         sufs += [b'example-x.' + t, b'x-example.' + t, b'example.' + t + b'-x', b'example.x-' + t]
     for t in (b'com', b'net', b'org'):
         sufs += [b'example.' + t + b'x', b'example.' + t[:2], b'examplex.' + t, b'exampl.' + t, b'xexampl.' + t, b'example.x' + t[1:]]
-    sufs = list(dict.fromkeys(sufs))
+    return list(dict.fromkeys(sufs))
+
+def reserved_domains(full=False):
+    """0-3 labels of every length 1-63 (length 7 and the word 'example' in particular) before each reserved
+    suffix and before its one-edit neighbours, in several case patterns."""
+    sufs = reserved_suffixes()
     pres = [b'']
     lens = range(1, 64) if full else list(range(1, 12)) + [62, 63]
     for n in lens:
@@ -590,4 +608,11 @@ def mapped_variants(names=None):
               n.replace('s', 'ſ', 1), n.upper().replace('.', '。')}
         for v in vs:
             if v != n: out.append(v.encode('utf-8'))
+    # names, labels and whole domains that the mapping makes vanish (code points mapped to nothing) or reduces to bare separators
+    for i in ('\u00ad', '\u200b', '\u2060', '\ufeff', '\u034f', '\u180b', '\ufe0f', '\U000e0100'):
+        for v in (i, i + i, i + '.com', 'b.' + i, i + '.' + i, 'b.' + i + '.com', i + '\u3002com', i + 'b' + i + '.com', 'b.com.' + i, i + '.', i + 'test', 'test' + i,
+                  i + '.test', 'b.' + i + 'com' + i):
+            out.append(v.encode('utf-8'))
+    for v in ('\u3002', '\uff0e', '\uff61', '\u3002\u3002', 'b\u3002', '\u3002b', 'b\u3002\u3002com', '\u3002com'):
+        out.append(v.encode('utf-8'))
     return sorted(set(out))
